@@ -120,6 +120,9 @@ func runC17(c *Ctx) {
 			if r.Chance(2, 3) {
 				lo := 3*cfg.Length + 1
 				cfg.CoreSize = lo + []int{0, 1, 7, 50, 500, 8000}[r.Intn(6)]
+				if r.Chance(1, 12) {
+					cfg.CoreSize = []int{65537, 100000, 250000}[r.Intn(3)] // cores above 2^16
+				}
 				args = append(args, "-s", strconv.Itoa(cfg.CoreSize))
 				flagset += "-s"
 			} else if 3*cfg.Length+1 > cfg.CoreSize {
@@ -200,16 +203,26 @@ func runC17(c *Ctx) {
 		if pinned {
 			// pinned invocations: every preset with a slow-dying warrior against one that sits still
 			pc := pinnedCLI[idx]
-			row := readmePresets[pc[0]]
-			cfg = asm.Config{Dialect: row.dialect, CoreSize: row.size, Length: row.length, Processes: row.processes, Distance: row.length}
-			cycles = row.cycles
-			fixed = row.size / 2
-			if pc[3] != "" {
-				fixed, _ = strconv.Atoi(pc[3])
-			}
 			rounds = 2
-			args = []string{"-preset", pc[0], "-r", "2", "-F", strconv.Itoa(fixed)}
-			flagset = "preset:" + pc[0] + "-r-F(pinned)"
+			if strings.HasPrefix(pc[0], "size:") {
+				// a plain -s invocation on a big core
+				size, _ := strconv.Atoi(strings.TrimPrefix(pc[0], "size:"))
+				cfg = asm.Config{Dialect: asm.D94, CoreSize: size, Length: 100, Processes: 8000, Distance: 100}
+				cycles = 200
+				fixed, _ = strconv.Atoi(pc[3])
+				args = []string{"-s", strconv.Itoa(size), "-c", "200", "-r", "2", "-F", strconv.Itoa(fixed)}
+				flagset = "-s-c-r-F(pinned big core)"
+			} else {
+				row := readmePresets[pc[0]]
+				cfg = asm.Config{Dialect: row.dialect, CoreSize: row.size, Length: row.length, Processes: row.processes, Distance: row.length}
+				cycles = row.cycles
+				fixed = row.size / 2
+				if pc[3] != "" {
+					fixed, _ = strconv.Atoi(pc[3])
+				}
+				args = []string{"-preset", pc[0], "-r", "2", "-F", strconv.Itoa(fixed)}
+				flagset = "preset:" + pc[0] + "-r-F(pinned)"
+			}
 			single = false
 			t1 = pc[1]
 			m1 = meaningOfPlain(t1, cfg)
@@ -367,6 +380,9 @@ var pinnedCLI = [][4]string{
 	// a B-indirect pointer chain whose sum (255+250) exceeds the core size: the bomb must land on cell 251
 	{"nop256", "jmp 2\ndat #0, #250\nmov 2, @-1\njmp -1\ndat #0, #0\n", "jmp 0\n", "251"},
 	{"nopnano", "x djn x, #70\ndat #0, #0\n", "mov 0, 1\n", ""},
+	// cores above 2^16: a product above 2^32 decides where the warrior jumps (70003*73334 = 2 mod 100000 -> the jmp 0 cell)
+	{"size:100000", "mul.x a, b\njmp @b\na dat #70003, #1\nb dat #1, #73334\ndat #0, #0\njmp 0\n", "jmp 0\n", "50000"},
+	{"size:100000", "jmp 0\n", "mul.ab #70003, b\njmp @b\ndat #0, #0\nb dat #0, #73334\ndat #0, #0\njmp 0\n", "70000"},
 	// a dwarf on the 8192 core must not bomb itself (no read/write limits in the preset)
 	{"icws", "spl 0\njmp -1\n", "add #4, 3\nmov 2, @2\njmp -2\ndat #0, #0\n", "3740"},
 }
